@@ -232,12 +232,17 @@ func (f *fileWrapper) flattenedFileObject() (*flattenedFileObject, error) {
 		ForkCount: [2]byte{0, 2},
 	}
 
-	_, err = f.fs.Stat(f.infoPath)
-	if err == nil {
-		b, err := f.fs.ReadFile(f.infoPath)
-		if err != nil {
-			return nil, err
+	// A stored information fork that cannot be decoded (a client can upload a file under the side-file's name) is
+	// treated like a missing one, so that the entry can still be listed, inspected and removed.
+	var storedInfo []byte
+	if _, err = f.fs.Stat(f.infoPath); err == nil {
+		if b, err := f.fs.ReadFile(f.infoPath); err == nil && checkInfoForkSizes(b) == nil {
+			storedInfo = b
 		}
+	}
+
+	if storedInfo != nil {
+		b := storedInfo
 
 		f.Ffo.FlatFileHeader.ForkCount[1] = 3
 
